@@ -43,11 +43,11 @@ def shim_env(match, log, kill_at=0, torn=False):
     return env
 
 
-def writer_cmd(db, mode, sync, env, newdb=0):
+def writer_cmd(db, mode, sync, env, newdb=0, sector=512):
     w = os.path.join(common.VERIF, "tools", "writer.py")
     if newdb:
-        return ["/usr/bin/env"] + env + [common.PYTHON, w, "crashnew", db, mode, "3", sync, str(newdb)]
-    return ["/usr/bin/env"] + env + [common.PYTHON, w, "crashtxn", db, mode, "3", sync]
+        return ["/usr/bin/env"] + env + [common.PYTHON, w, "crashnew", db, mode, "3", sync, str(newdb), str(sector)]
+    return ["/usr/bin/env"] + env + [common.PYTHON, w, "crashtxn", db, mode, "3", sync, str(sector)]
 
 
 def parse_log(path, ps):
@@ -58,9 +58,10 @@ def parse_log(path, ps):
     return out
 
 
-def abstract_events(calls, ps, upto, torn_last, modified, orig_pages=1 << 30):
+def abstract_events(calls, ps, upto, torn_last, modified, orig_pages=1 << 30, sector=512):
     """system calls 1..upto-1 completed (call `upto` cut short when torn_last) -> writer actions of Journal.tla"""
     evs = []
+    hdr = None           # the journal header write in progress: (next offset, content prefix)
     rec = None           # page number of a record in progress, parts seen
     parts = 0
     journaled = set()
@@ -79,6 +80,11 @@ def abstract_events(calls, ps, upto, torn_last, modified, orig_pages=1 << 30):
             if c["op"] == "unlink" or (c["op"].startswith("ftruncate") and c["off"] == 0):
                 evs.append({"ev": "finalize"})
             elif c["op"] in ("pwrite", "write"):
+                if hdr is not None and rec is None and c["off"] == hdr[0] and c["hex"] == hdr[1] and c["len"] == hdr[2] and c["off"] % sector != 0:
+                    # a further chunk of the same header: a copy of it, filling the header's sector
+                    evs.append({"ev": "jpad", "torn": torn})
+                    hdr = (c["off"] + c["len"], c["hex"], c["len"])
+                    continue
                 if rec is None and c["len"] == 4:
                     rec, parts = int(c["hex"][:8], 16), 1
                     if torn:
@@ -99,6 +105,7 @@ def abstract_events(calls, ps, upto, torn_last, modified, orig_pages=1 << 30):
                     evs.append({"ev": "finalize"}) if not torn else evs.append({"ev": "finalize"})
                 else:
                     evs.append({"ev": "jhdr", "torn": torn})
+                    hdr = (c["off"] + c["len"], c["hex"], c["len"])
         else:
             if c["op"] in ("pwrite", "write"):
                 pno = c["off"] // ps + 1
@@ -142,7 +149,7 @@ def sqlittle_rows(res):
     return out
 
 
-def run_config(v, h, d, ps, mode, sync, tier, rnd, tag, newdb=False):
+def run_config(v, h, d, ps, mode, sync, tier, rnd, tag, newdb=False, sector=512):
     ensure_shim()
     cdir = os.path.join(d, tag)
     os.makedirs(cdir, exist_ok=True)
@@ -158,7 +165,7 @@ def run_config(v, h, d, ps, mode, sync, tier, rnd, tag, newdb=False):
     os.makedirs(ref)
     shutil.copy(base, os.path.join(ref, "crash.db"))
     log = os.path.join(ref, "log.txt")
-    rc, txt, _ = common.run(writer_cmd(os.path.join(ref, "crash.db"), mode, sync, shim_env("crash.db", log), ps if newdb else 0), timeout=120)
+    rc, txt, _ = common.run(writer_cmd(os.path.join(ref, "crash.db"), mode, sync, shim_env("crash.db", log), ps if newdb else 0, sector), timeout=120)
     if rc != 0:
         raise Infra("reference writer run failed: " + txt[-500:])
     calls = parse_log(log, ps)
@@ -176,7 +183,7 @@ def run_config(v, h, d, ps, mode, sync, tier, rnd, tag, newdb=False):
         for k, t in points:
             c = calls[k - 1] if k <= N else None
             interesting = c is None or c["file"] == "d" or c["len"] in (12, 28) or c["op"] in ("unlink",) or c["op"].startswith("ftrunc") \
-                or k <= 8 or k >= N - 6 or (c["file"] == "j" and c["len"] >= 28 and c["len"] != ps and c["len"] != 4)
+                or k <= 8 + (sector // min(ps, sector) if sector > 512 else 0) or k >= N - 6 or (c["file"] == "j" and c["len"] >= 28 and c["len"] != ps and c["len"] != 4)
             if interesting or rnd.random() < 0.12:
                 keep.add((k, t))
         points = [p for p in points if p in keep]
@@ -187,7 +194,7 @@ def run_config(v, h, d, ps, mode, sync, tier, rnd, tag, newdb=False):
         db = os.path.join(xd, "crash.db")
         shutil.copy(base, db)
         sel = {"op": "select", "table": "t", "cols": ["id", "v"]}
-        cmd = writer_cmd(db, mode, sync, shim_env("crash.db", os.path.join(xd, "log.txt"), k if k <= N else 0, torn), ps if newdb else 0)
+        cmd = writer_cmd(db, mode, sync, shim_env("crash.db", os.path.join(xd, "log.txt"), k if k <= N else 0, torn), ps if newdb else 0, sector)
         i0 = len(exps) * 10
         # the handle opened before the crash has read the header and the schema; every other experiment it has
         # also read (and cached) the table itself
@@ -253,7 +260,7 @@ def run_config(v, h, d, ps, mode, sync, tier, rnd, tag, newdb=False):
         except sqlite3.DatabaseError as e:
             sq = "mixed"
         lines.append({"ev": "reset"})
-        lines += abstract_events(calls, ps, x["k"], x["torn"], modified, orig_pages)
+        lines += abstract_events(calls, ps, x["k"], x["torn"], modified, orig_pages, sector)
         lines.append({"ev": "crash", "sqlittle": fresh, "aged": aged, "sqlite": sq})
         info.append((len(lines), x, fresh, aged, sq))
         shutil.rmtree(x["dir"], ignore_errors=True)
@@ -261,8 +268,8 @@ def run_config(v, h, d, ps, mode, sync, tier, rnd, tag, newdb=False):
     common.write_ndjson(f, lines)
     cfg = os.path.join(cdir, "TraceJournal_run.cfg")
     with open(cfg, "w") as fh:
-        fh.write("SPECIFICATION TJSpec\nCONSTANTS\n  Modified = {%s}\n  Appended = {%s}\n  Mode = \"%s\"\n  NoSync = %s\nINVARIANT Track\nPOSTCONDITION Post\nCHECK_DEADLOCK FALSE\n"
-                 % (", ".join(map(str, sorted(modified))), ", ".join(map(str, sorted(appended))), mode, "TRUE" if sync == "OFF" else "FALSE"))
+        fh.write("SPECIFICATION TJSpec\nCONSTANTS\n  Modified = {%s}\n  Appended = {%s}\n  Mode = \"%s\"\n  NoSync = %s\n  HdrChunks = %d\nINVARIANT Track\nPOSTCONDITION Post\nCHECK_DEADLOCK FALSE\n"
+                 % (", ".join(map(str, sorted(modified))), ", ".join(map(str, sorted(appended))), mode, "TRUE" if sync == "OFF" else "FALSE", max(1, sector // min(ps, sector)) if sector > 512 else 1))
     r = common.tlc("TraceJournal", cfg="TraceJournal_run.cfg", files={f: "crash.ndjson", cfg: "TraceJournal_run.cfg"}, workers=1,
                    timeout=1800, name="c09-tlc-" + tag, heap="8g")
     v.add_tlc(r)
@@ -298,6 +305,112 @@ def run_config(v, h, d, ps, mode, sync, tier, rnd, tag, newdb=False):
             "outcomes(sqlittle,sqlite)": {"%s/%s" % k: n for k, n in sorted(oc.items())}, "abstract_states": len(verdict["covered"])}
 
 
+MAGIC = bytes([0xd9, 0xd5, 0x05, 0xf9, 0x20, 0xa1, 0x63, 0xd7])
+
+
+def run_leftovers(v, h, d, tier):
+    """the second sentence of C09: after a COMPLETED commit, whatever is left of the journal -- nothing, an empty file,
+    a zeroed header, a file cut to any length (PRAGMA journal_size_limit), also lengths below one header -- does not
+    prevent reading.  Real journal_size_limit runs plus synthetic lengths; SQLite reads a copy of every pair."""
+    import struct
+    cdir = os.path.join(d, "leftover")
+    os.makedirs(cdir)
+    ps = 1024
+    base = os.path.join(cdir, "crash.db")
+    base_db(base, ps, ROWS)
+    con = sqlite3.connect(base, isolation_level=None)
+    con.execute("PRAGMA journal_mode=PERSIST")
+    con.execute("UPDATE t SET v = v + 1000")
+    con.close()
+    fin = open(base + "-journal", "rb").read()          # a real finalised (header zeroed) journal
+    os.remove(base + "-journal")
+    hot = MAGIC + struct.pack(">iIii", 1, 7, 3, 512) + struct.pack(">i", ps) + b"\x00" * (512 - 28)
+    variants = [("absent", None, True)]
+    for n in list(range(0, 41)) + [100, 511, 512, 513, 1024, len(fin)]:
+        variants.append(("zeros-%d" % n, b"\x00" * n, True))
+        variants.append(("finalised-cut-%d" % n, fin[:n], True))
+    for n in list(range(1, 28)) + [28, 100, 511]:
+        variants.append(("magic-cut-%d" % n, hot[:n], False))
+    # real journal_size_limit runs
+    for lim in (0, 1, 5, 16, 27, 28, 29, 512, 4096, -1):
+        p = os.path.join(cdir, "lim%d.db" % lim)
+        base_db(p, ps, ROWS)
+        con = sqlite3.connect(p, isolation_level=None)
+        con.execute("PRAGMA journal_mode=PERSIST")
+        con.execute("PRAGMA journal_size_limit=%d" % lim)
+        con.execute("UPDATE t SET v = v + 1000")
+        con.close()
+        jb = open(p + "-journal", "rb").read() if os.path.exists(p + "-journal") else None
+        variants.append(("journal_size_limit=%d(%s bytes)" % (lim, "no" if jb is None else len(jb)), jb, True))
+        for suf in ("", "-journal"):
+            if os.path.exists(p + suf):
+                os.remove(p + suf)
+    batches, todo = [], []
+    sel = {"op": "select", "table": "t", "cols": ["id", "v"]}
+    for i, (name, jb, listed) in enumerate(variants):
+        xd = os.path.join(cdir, "v%d" % i)
+        os.makedirs(xd)
+        db = os.path.join(xd, "crash.db")
+        shutil.copy(base, db)
+        if jb is not None:
+            open(db + "-journal", "wb").write(jb)
+        rdir = os.path.join(xd, "rec")
+        os.makedirs(rdir)
+        for suf in ("", "-journal"):
+            if os.path.exists(db + suf):
+                shutil.copy(db + suf, os.path.join(rdir, "crash.db" + suf))
+        batches.append({"db": db, "mode": "fresh", "ops": [dict(sel, id=i), {"op": "tables", "id": 100000 + i}]})
+        todo.append((i, name, jb, listed, db, rdir))
+    req, out = os.path.join(cdir, "req.ndjson"), os.path.join(cdir, "res.ndjson")
+    common.write_ndjson(req, batches)
+    rc, txt, _ = common.run([h, "ops", req, out], timeout=600)
+    if rc != 0:
+        raise Infra("harness ops failed: " + txt[-2000:])
+    res = {r["id"]: r for r in common.read_ndjson(out)}
+    lines, info = [], []
+    for i, name, jb, listed, db, rdir in todo:
+        fresh = classify(sqlittle_rows(res[i]))
+        try:
+            con = sqlite3.connect(os.path.join(rdir, "crash.db"))
+            sq = classify(con.execute("SELECT id, v FROM t ORDER BY id").fetchall())
+            con.close()
+        except sqlite3.DatabaseError:
+            sq = "mixed"
+        magic = jb is not None and jb[:8] == MAGIC
+        lines.append({"ev": "reset"})
+        lines.append({"ev": "leftover", "exists": jb is not None, "magic": magic, "full": magic and len(jb) >= 512, "listed": listed})
+        lines.append({"ev": "crash", "sqlittle": fresh, "aged": fresh, "sqlite": sq})
+        info.append((len(lines), name, fresh, sq, db))
+    f = os.path.join(cdir, "crash.ndjson")
+    common.write_ndjson(f, lines)
+    cfg = os.path.join(cdir, "TraceJournal_left.cfg")
+    open(cfg, "w").write("SPECIFICATION TJSpec\nCONSTANTS\n  Modified = {1}\n  Appended = {}\n  Mode = \"PERSIST\"\n  NoSync = FALSE\n  HdrChunks = 1\n"
+                         "INVARIANT Track\nPOSTCONDITION Post\nCHECK_DEADLOCK FALSE\n")
+    r = common.tlc("TraceJournal", cfg="TraceJournal_left.cfg", files={f: "crash.ndjson", cfg: "TraceJournal_left.cfg"}, workers=1, timeout=600, name="c09-left")
+    v.add_tlc(r)
+    vp = os.path.join(r.workdir, "verdict.json")
+    if not os.path.exists(vp):
+        raise Infra("TraceJournal did not consume the leftover trace:\n" + (r.error or r.out)[-1500:])
+    verdict = json.load(open(vp))
+    if verdict["specbad"]:
+        x = next(t for t in info if t[0] == verdict["specbad"][0])
+        raise Infra("Journal.tla's SqliteRecovered differs from real SQLite on leftover %s: sqlite=%s" % (x[1], x[3]))
+    for i in verdict["bad"]:
+        n, name, fresh, sq, db = next(t for t in info if t[0] == i)
+
+        def save(name=name, db=db):
+            dst = os.path.join(common.replay_dir("C09"), "leftover-%s.db" % re.sub(r"[^A-Za-z0-9=-]", "_", name))
+            shutil.copy(db, dst)
+            if os.path.exists(db + "-journal"):
+                shutil.copy(db + "-journal", dst + "-journal")
+            return common.write_replay("C09", "leftover-%s.json" % re.sub(r"[^A-Za-z0-9=-]", "_", name), {"leftover": name, "db": dst})
+        v.report("C09:leftover:sqlittle=%s:sqlite=%s" % (fresh, sq), "committed database with journal leftover '%s': sqlittle reads '%s', SQLite reads '%s'" % (name, fresh, sq), save)
+    for _, name, fresh, sq, _ in info:
+        v.nontrivial(("leftover", re.sub(r"\d+", "N", name), fresh))
+    shutil.rmtree(cdir, ignore_errors=True)
+    return {"config": "journal leftovers after a completed commit", "variants": len(variants), "bad": len(verdict["bad"])}
+
+
 def run(tier):
     v = common.Verdict("C09", tier)
     rnd = random.Random(common.seed())
@@ -306,25 +419,35 @@ def run(tier):
     mcs = 0
     for mode in ("DELETE", "TRUNCATE", "PERSIST"):
         for ns in ("FALSE", "TRUE"):
-            cfg = os.path.join(d, "MC_Journal_%s_%s.cfg" % (mode, ns))
-            open(cfg, "w").write(open(os.path.join(common.SPEC, "MC_Journal.cfg")).read().replace('Mode = "DELETE"', 'Mode = "%s"' % mode).replace("NoSync = FALSE", "NoSync = " + ns))
-            r = common.tlc("Journal", cfg=os.path.basename(cfg), files={cfg: os.path.basename(cfg)}, workers=8, timeout=300, name="mcj-%s-%s" % (mode, ns))
-            common.tlc_require_ok(r, "MC_Journal %s %s" % (mode, ns))
-            v.add_tlc(r)
-            mcs += r.distinct
+            # header written in one call, or (sector larger than the page) in several
+            for hc in ((1, 2) if tier == "quick" else (1, 2, 4)):
+                if tier == "quick" and hc == 2 and mode == "TRUNCATE":
+                    continue
+                cfg = os.path.join(d, "MC_Journal_%s_%s_%d.cfg" % (mode, ns, hc))
+                open(cfg, "w").write(open(os.path.join(common.SPEC, "MC_Journal.cfg")).read().replace('Mode = "DELETE"', 'Mode = "%s"' % mode)
+                                     .replace("NoSync = FALSE", "NoSync = " + ns).replace("HdrChunks = 1", "HdrChunks = %d" % hc))
+                r = common.tlc("Journal", cfg=os.path.basename(cfg), files={cfg: os.path.basename(cfg)}, workers=8, timeout=300, name="mcj-%s-%s-%d" % (mode, ns, hc))
+                common.tlc_require_ok(r, "MC_Journal %s %s %d" % (mode, ns, hc))
+                v.add_tlc(r)
+                mcs += r.distinct
     v.cov["mc_journal_states"] = mcs
     h = common.build_harness()
     if tier == "quick":
-        configs = [(1024, "DELETE", "FULL"), (512, "PERSIST", "OFF"), (65536, "TRUNCATE", "FULL")]
-        newconfigs = [(1024, "DELETE", "FULL")]
+        configs = [(1024, "DELETE", "FULL", 512), (512, "PERSIST", "OFF", 512), (65536, "TRUNCATE", "FULL", 512),
+                   # sector (4096, powersafe overwrite off) larger than the page: the header's sector holds copies of the header
+                   (1024, "PERSIST", "FULL", 4096)]
+        newconfigs = [(1024, "DELETE", "FULL", 512)]
     else:
-        configs = [(ps, m, s) for ps in (512, 1024, 4096, 65536) for m in ("DELETE", "TRUNCATE", "PERSIST") for s in ("FULL", "OFF")]
-        newconfigs = [(ps, m, s) for ps in (512, 4096) for m in ("DELETE", "TRUNCATE", "PERSIST") for s in ("FULL", "OFF")]
+        configs = [(ps, m, s, 512) for ps in (512, 1024, 4096, 65536) for m in ("DELETE", "TRUNCATE", "PERSIST") for s in ("FULL", "OFF")]
+        configs += [(ps, m, s, 4096) for ps in (512, 1024, 2048, 8192) for m in ("DELETE", "TRUNCATE", "PERSIST") for s in ("FULL", "OFF")]
+        newconfigs = [(ps, m, s, 512) for ps in (512, 4096) for m in ("DELETE", "TRUNCATE", "PERSIST") for s in ("FULL", "OFF")]
+        newconfigs += [(1024, "DELETE", "FULL", 4096), (512, "PERSIST", "OFF", 4096)]
     summ = []
-    for ps, mode, sync in configs:
-        summ.append(run_config(v, h, d, ps, mode, sync, tier, rnd, "ps%d-%s-%s" % (ps, mode, sync)))
-    for ps, mode, sync in newconfigs:
-        summ.append(run_config(v, h, d, ps, mode, sync, tier, rnd, "new-ps%d-%s-%s" % (ps, mode, sync), newdb=True))
+    for ps, mode, sync, sector in configs:
+        summ.append(run_config(v, h, d, ps, mode, sync, tier, rnd, "ps%d-%s-%s-s%d" % (ps, mode, sync, sector), sector=sector))
+    for ps, mode, sync, sector in newconfigs:
+        summ.append(run_config(v, h, d, ps, mode, sync, tier, rnd, "new-ps%d-%s-%s-s%d" % (ps, mode, sync, sector), newdb=True, sector=sector))
+    summ.append(run_leftovers(v, h, d, tier))
     # the three prebuilt pairs of the repository
     for name, want_err in (("journal_hot", True), ("journal_persist", False), ("journal_truncate", False)):
         src = os.path.join(common.REPO, "testdata", name + ".sqlite")
@@ -337,7 +460,7 @@ def run(tier):
                 v.report("C09:testdata:" + name, "testdata/%s: expected %s, got err=%r" % (name, "an error" if want_err else "a clean read", res.get("err")),
                          lambda: common.write_replay("C09", "testdata-%s.json" % name, {"file": src}))
     v.cov["configs"] = summ
-    v.cov["evaluations"] = sum(s["crash_points"] for s in summ)
+    v.cov["evaluations"] = sum(s.get("crash_points", 0) + s.get("variants", 0) for s in summ)
     v.cov["rule"] = ("per configuration (page size x journal mode x synchronous) the writer is killed before its k-th file operation for k = 1..N+1 "
                      "and in the middle of every write (quick: every database write, header/count/zero/unlink/truncate call, the first and last calls, "
                      "a seeded sample of the record writes); each image is read by a fresh sqlittle handle and by one opened before the crash, and "
